@@ -65,7 +65,13 @@ fn run_case(i: usize, case: &Value) -> Value {
         let mut broken = Cap::new(vec![]);
         broken.fail_after = Some((i % 6) * 7);
         let _ = catch(|| enc.encode(&mut broken, &log::Record::builder().level(lvl).target("earlier").args(format_args!("earlier record")).build()));
-        let mut cap = Cap::new(vec![]);
+        // the sink accepts a prefix per write call (JsonLine.tla)
+        let mut cap = Cap::new(match (i / 2) % 4 {
+            0 => vec![],
+            1 => vec![1],
+            2 => vec![7, 1, 64],
+            _ => vec![3],
+        });
         let r = catch(|| {
             enc.encode(
                 &mut cap,
